@@ -128,9 +128,10 @@ std::vector<ShamirShare> Shamir::split(const std::array<std::uint8_t, 32>& secre
     std::vector<ShamirShare> shares;
     shares.reserve(share_count);
 
-    for (std::uint8_t share_index = 1; share_index <= share_count; ++share_index) {
+    // Count in a wider type: a std::uint8_t counter never exceeds share_count == 255 and would loop forever.
+    for (unsigned int share_index = 1; share_index <= share_count; ++share_index) {
         ShamirShare share{};
-        share.index = share_index;
+        share.index = static_cast<std::uint8_t>(share_index);
         shares.push_back(share);
     }
 
